@@ -159,29 +159,72 @@ def main(tier):
                     break
         if edges:
             plines.append(pline(nodes, edges))
-    pt = os.path.join(d, 'planar.txt')
-    open(pt, 'w').write('\n'.join(plines) + '\n')
-    prf = os.path.join(d, 'planar.json')
-    rc, out = V.run([hd, 'planar', pt, prf], timeout=1800)
-    if rc != 0:
-        V.harness_exit('h_dialect:planar', rc, out)
-    pdata = json.load(open(prf))
-    pdata['GU'] = U * pdata['S']
-    json.dump(pdata, open(prf, 'w'))
-    open(pcfg, 'w').write('SPECIFICATION Spec\nCONSTANTS\n GN = 1\n GMAXN = 1\n GMAXE = 1\nINVARIANT Planarised\nCHECK_DEADLOCK FALSE\n')
-    rp = V.tlc(PL, pcfg, env={'PLANARRECS': prf, 'PLANARGEN': '/dev/null'}, timeout=3000, cont=True, mem='16g')
-    ev.add_tlc('Planar records: %d routed graphs (%d enumerated + random)' % (len(plines), nenum), rp)
-    pnontriv = sum(v[0] for v in V.stat(rp.out, 'planar'))
-    for inv, st in V.violating_states(rp):
-        for (i, t) in st.get('bad', []):
-            x = pdata['recs'][i - 1]
-            key = 'planar:' + t
-            if t == 'assertion':
-                m = re.search(r'expression: (.*?)(\n| \||$)', x.get('what', ''))
-                key = 'planar:assertion:' + (re.sub(r'[^A-Za-z0-9_>!=<.()-]+', '', m.group(1))[:50] if m else '')
-            vd.violation(key, '%s: nodes=%s routes=%s -> planar nodes=%s edges=%s %s' % (t, x['nodes'], [(e['u'], e['v'], e['pts']) for e in x['edges']][:12], x['pn'][:30], x['pe'][:40], x.get('what', '')[:200]),
-                         x if x['n'] <= 10 else {'n': x['n'], 'nodes': x['nodes'], 'edges': x['edges']})
-    ev.cov['planar_routed_graphs'] = len(plines)
+    # fine family: 32x32 nodes on a 40-unit grid, Z/L routes whose intermediate lines sit 2 units from the bends and lines of
+    # other routes, so that crossings fall next to segment ends (all coordinates even: lattice step GU = 2 input units)
+    flines = []
+    def fline(nodes, edges):
+        return '%d %s %d %s' % (len(nodes), ' '.join('%d %d 32 32' % (x, y) for x, y in nodes), len(edges),
+                                ' '.join('%d %d %d %s' % (u, v, len(rt), ' '.join('%d %d' % (x, y) for x, y in rt)) for u, v, rt in edges))
+    def seg_hits_box(a, b, c):      # closed segment a-b against the open 36x36 box around centre c
+        lo = (min(a[0], b[0]), min(a[1], b[1])); hi = (max(a[0], b[0]), max(a[1], b[1]))
+        return lo[0] < c[0] + 18 and hi[0] > c[0] - 18 and lo[1] < c[1] + 18 and hi[1] > c[1] - 18
+    for _ in range(400 if quick else 4000):
+        cells = [(40 * x, 40 * y) for x in range(6) for y in range(6)]
+        nodes = rnd.sample(cells, rnd.randint(3, 7))
+        edges, used, xs, ys = [], set(), [], []
+        for _e in range(rnd.randint(2, 6)):
+            a, b = rnd.sample(range(len(nodes)), 2)
+            if (min(a, b), max(a, b)) in used:
+                continue
+            p, q = nodes[a], nodes[b]
+            cands = []
+            if p[0] == q[0] or p[1] == q[1]:
+                cands.append([p, q])
+            else:
+                cands += [[p, (q[0], p[1]), q], [p, (p[0], q[1]), q]]
+                for _k in range(3):
+                    near_x = [x + dd for x in xs + [p[0], q[0]] for dd in (-2, 2)]
+                    near_y = [y + dd for y in ys + [p[1], q[1]] for dd in (-2, 2)]
+                    mx = rnd.choice(near_x) if rnd.random() < 0.7 else 2 * rnd.randrange(min(p[0], q[0]) // 2, max(p[0], q[0]) // 2 + 1)
+                    my = rnd.choice(near_y) if rnd.random() < 0.7 else 2 * rnd.randrange(min(p[1], q[1]) // 2, max(p[1], q[1]) // 2 + 1)
+                    if min(p[0], q[0]) < mx < max(p[0], q[0]):
+                        cands.append([p, (mx, p[1]), (mx, q[1]), q])
+                    if min(p[1], q[1]) < my < max(p[1], q[1]):
+                        cands.append([p, (p[0], my), (q[0], my), q])
+            rnd.shuffle(cands)
+            for rt in cands:
+                if all(not seg_hits_box(rt[i], rt[i + 1], o) for i in range(len(rt) - 1) for k, o in enumerate(nodes) if k not in (a, b)):
+                    edges.append((a + 1, b + 1, rt)); used.add((min(a, b), max(a, b)))
+                    xs += [pt_[0] for pt_ in rt[1:-1]]; ys += [pt_[1] for pt_ in rt[1:-1]]
+                    break
+        if len(edges) >= 2:
+            flines.append(fline(nodes, edges))
+    pnontriv = 0
+    for fam_name, fam_lines, fam_u in (('planar', plines, U), ('planarfine', flines, 2)):
+        pt = os.path.join(d, fam_name + '.txt')
+        open(pt, 'w').write('\n'.join(fam_lines) + '\n')
+        prf = os.path.join(d, fam_name + '.json')
+        rc, out = V.run([hd, 'planar', pt, prf], timeout=1800)
+        if rc != 0:
+            V.harness_exit('h_dialect:planar', rc, out)
+        pdata = json.load(open(prf))
+        pdata['GU'] = fam_u * pdata['S']
+        json.dump(pdata, open(prf, 'w'))
+        open(pcfg, 'w').write('SPECIFICATION Spec\nCONSTANTS\n GN = 1\n GMAXN = 1\n GMAXE = 1\nINVARIANT Planarised\nCHECK_DEADLOCK FALSE\n')
+        rp = V.tlc(PL, pcfg, env={'PLANARRECS': prf, 'PLANARGEN': '/dev/null'}, timeout=3000, cont=True, mem='16g')
+        ev.add_tlc('Planar records (%s): %d routed graphs' % (fam_name, len(fam_lines)), rp)
+        pnontriv += sum(v[0] for v in V.stat(rp.out, 'planar'))
+        for inv, st in V.violating_states(rp):
+            for (i, t) in st.get('bad', []):
+                x = pdata['recs'][i - 1]
+                key = 'planar:' + t
+                if t == 'assertion':
+                    m = re.search(r'expression: (.*?)(\n| \||$)', x.get('what', ''))
+                    key = 'planar:assertion:' + (re.sub(r'[^A-Za-z0-9_>!=<.()-]+', '', m.group(1))[:50] if m else '')
+                vd.violation(key, '%s: nodes=%s routes=%s -> planar nodes=%s edges=%s %s' % (t, x['nodes'], [(e['u'], e['v'], e['pts']) for e in x['edges']][:12], x['pn'][:30], x['pe'][:40], x.get('what', '')[:200]),
+                             x if x['n'] <= 10 else {'n': x['n'], 'nodes': x['nodes'], 'edges': x['edges']})
+    ev.cov['planar_routed_graphs'] = len(plines) + len(flines)
+    ev.cov['planar_fine_family'] = len(flines)
     ev.cov['planar_nontrivial'] = pnontriv
     ev.cov['evaluations'] = len(lines) + len(plines)
     ev.cov['distinct_nontrivial'] = nontriv + pnontriv
